@@ -725,7 +725,7 @@ func runC01API(c *Ctx, s *C01Spec) {
 	for _, w := range words {
 		res := genOp(NewTape(TapeSpec{Mode: "raw", Words: []uint32{w}, Default: "random", Seed: 0xa91}), g)
 		c.Eval(1)
-		c.T(res.brief())
+		c.T(res.tkey())
 		c.Distinct(desc, w)
 		if res.Kind != "ok" {
 			c.Count("api_generation_"+res.Kind, 1)
